@@ -201,6 +201,11 @@ fn main() {
         });
       }
     }
+    "compile-child" => {
+      sv::engine::install_panic_hook();
+      let art: serde_json::Value = serde_json::from_str(&std::fs::read_to_string(&args[1]).unwrap()).unwrap();
+      println!("{}", sv::props::c12::compile_child(&art));
+    }
     "list" => {
       for p in sv::props::all() {
         println!("{}", p.id());
